@@ -137,3 +137,157 @@ def _replay(res, repo):
             info["replay_how"] = "diamond import: root.yaml imports shared/common.yaml and sub/part.yaml, which imports ../shared/common.yaml"
             info["verifier_output"] = info["text"]
             info["text"] += "\nreplayed on the real parser: " + lines[0]
+
+
+# ---------------------------------------------------------------------------------------------------------
+# Parser.handle_reserve: "every id covered by a _RESERVED_ entry is registered, so that a definition using it conflicts"
+#   (R1) an integer entry e is reserved as e;
+#   (R2) a span entry "a-b" / "a to b" is expanded with range(a, b + 1): both ends included, a and b being int() of the regex groups "start" and "end";
+#   (R3) every reserved id is registered through handle_signal with that id (which validates it against every message, signal and reserved id).
+# Decided by dataflow over the one function; other shapes are undecided.  Replayed on the real parser.
+RESERVE_REPLAY = r'''
+import os, sys, pathlib, tempfile, shutil, logging
+sys.path.insert(0, os.path.join(sys.argv[1], "src"))
+logging.disable(logging.CRITICAL)
+from pyrtma.parser import Parser
+tmp = tempfile.mkdtemp(prefix="c12r_")
+bad = []
+try:
+    for used in (7000, 7010, 7011, 7012, 7020, 7030, 7033):
+        f = pathlib.Path(tmp) / f"d{used}.yaml"
+        f.write_text("message_defs:\n  _RESERVED_:\n    id: [7000, '7010-7012', '7020 to 7020', ' 7030 - 7033 ']\n  USER_MSG:\n    id: %d\n    fields:\n      a: int32\n" % used)
+        try:
+            Parser().parse(f)
+            bad.append(used)
+        except Exception as ex:
+            if type(ex).__name__ != "MessageIDError":
+                print("C12-REPLAY-NOTE:", used, type(ex).__name__)
+    f = pathlib.Path(tmp) / "free.yaml"
+    f.write_text("message_defs:\n  _RESERVED_:\n    id: [7000, '7010-7012']\n  USER_MSG:\n    id: 7013\n    fields:\n      a: int32\n")
+    try:
+        Parser().parse(f)
+    except Exception as ex:
+        print("C12-REPLAY-VIOLATION: a conflict-free definition next to a reserved span is rejected:", type(ex).__name__)
+    if bad:
+        print("C12-REPLAY-VIOLATION: definitions using reserved ids", bad, "compile without MessageIDError (reserved: 7000, 7010-7012, 7020, 7030-7033)")
+finally:
+    shutil.rmtree(tmp, ignore_errors=True)
+'''
+
+
+def check_reserve(tier="quick", seed=0, repo="/repo"):
+    t0 = time.time()
+    res = dict(obligations=0, discharged=0, open={}, discharged_names=[], samples=[], by_backend={}, seconds=0.0, crashes=[], undecided=[], bounded=[],
+               assumptions=["handle_reserve's contract (R1-R3: integer entries as they are, spans expanded with both ends, every reserved id registered through handle_signal) is decided by a "
+                            "syntactic dataflow analysis of the one function; the regex that splits a span is not modelled"])
+    pre = "C12/handle_reserve"
+
+    def ok(n, goal):
+        res["obligations"] += 1; res["discharged"] += 1; res["discharged_names"].append(n)
+        res["by_backend"]["dataflow"] = res["by_backend"].get("dataflow", 0) + 1
+        res["samples"].append(dict(obligation=n, goal=goal, backend="dataflow"))
+
+    def bad(n, text):
+        res["obligations"] += 1
+        res["open"][n] = dict(kind="ensures", status="refuted", text=text, reason="dataflow", candidates=[])
+
+    def und(n, text):
+        res["obligations"] += 1
+        res["undecided"].append(f"{n}: {text}")
+    try:
+        tree = ast.parse(open(os.path.join(repo, "src", "pyrtma", "parser.py")).read())
+    except (OSError, SyntaxError) as ex:
+        res["crashes"].append(f"parser.py: {ex}")
+        return res
+    cls = next((n for n in tree.body if isinstance(n, ast.ClassDef) and n.name == "Parser"), None)
+    fd = next((n for n in (cls.body if cls else []) if isinstance(n, ast.FunctionDef) and n.name == "handle_reserve"), None)
+    if fd is None:
+        und(pre + "/span-includes-both-ends", "Parser.handle_reserve not found")
+        return res
+    defs = _defs(fd)
+
+    def group_of(name):
+        """'start' / 'end' if the local is int(<...>['start'|'end'])"""
+        ds = defs.get(name, [])
+        if len(ds) != 1:
+            return None
+        v = ds[0].value
+        if isinstance(v, ast.Call) and isinstance(v.func, ast.Name) and v.func.id == "int" and len(v.args) == 1:
+            s_ = ast.unparse(v.args[0])
+            for g in ("start", "end"):
+                if f"'{g}'" in s_ or f'"{g}"' in s_:
+                    return g
+        return None
+    ranges = [n for n in ast.walk(fd) if isinstance(n, ast.Call) and isinstance(n.func, ast.Name) and n.func.id == "range"]
+    if len(ranges) != 1 or len(ranges[0].args) != 2:
+        und(pre + "/span-includes-both-ends", f"expected one range(lo, hi) call, found {[ast.unparse(r) for r in ranges]}")
+    else:
+        lo, hi = ranges[0].args
+        lo_ok = isinstance(lo, ast.Name) and group_of(lo.id) == "start"
+        hi_incl = (isinstance(hi, ast.BinOp) and isinstance(hi.op, ast.Add) and
+                   ((isinstance(hi.left, ast.Name) and group_of(hi.left.id) == "end" and isinstance(hi.right, ast.Constant) and hi.right.value == 1) or
+                    (isinstance(hi.right, ast.Name) and group_of(hi.right.id) == "end" and isinstance(hi.left, ast.Constant) and hi.left.value == 1)))
+        hi_excl = isinstance(hi, ast.Name) and group_of(hi.id) == "end"
+        lo_shift = isinstance(lo, ast.BinOp) and any(isinstance(x, ast.Name) and group_of(x.id) == "start" for x in ast.walk(lo))
+        if lo_ok and hi_incl:
+            ok(pre + "/span-includes-both-ends", "a span 'a-b' is expanded with range(a, b + 1): a, ..., b are all reserved")
+        elif hi_excl or lo_shift or (lo_ok and isinstance(hi, ast.BinOp)):
+            bad(pre + "/span-includes-both-ends", f"a span 'a-b' is expanded with {ast.unparse(ranges[0])}: an end of the span is not reserved, a definition using it compiles without a conflict")
+        else:
+            und(pre + "/span-includes-both-ends", ast.unparse(ranges[0]))
+    # R1: integer entries
+    appends = [n for n in ast.walk(fd) if isinstance(n, ast.Call) and isinstance(n.func, ast.Attribute) and n.func.attr == "append" and isinstance(n.func.value, ast.Name)]
+    loopvars = {n.target.id: ast.unparse(n.iter) for n in ast.walk(fd) if isinstance(n, ast.For) and isinstance(n.target, ast.Name)}
+    good_app = [a for a in appends if len(a.args) == 1 and isinstance(a.args[0], ast.Name) and a.args[0].id in loopvars]
+    if len(appends) == 1 and good_app:
+        ok(pre + "/integer-entry-reserved-as-is", "an integer entry e is appended to the reserved ids unchanged")
+        coll = appends[0].func.value.id
+    elif appends:
+        bad(pre + "/integer-entry-reserved-as-is", f"an integer entry is reserved as {ast.unparse(appends[0].args[0]) if appends[0].args else '?'}, not as itself")
+        coll = appends[0].func.value.id
+    else:
+        und(pre + "/integer-entry-reserved-as-is", "no append of the integer entry found")
+        coll = None
+    # R3: every reserved id goes through handle_signal with that id
+    hs = [n for n in ast.walk(fd) if isinstance(n, ast.Call) and ast.unparse(n.func) == "self.handle_signal"]
+    okr3 = False
+    why = "no self.handle_signal(...) call"
+    for call in hs:
+        loop = next((f for f in ast.walk(fd) if isinstance(f, ast.For) and any(c is call for c in ast.walk(f))), None)
+        if loop is None or not isinstance(loop.target, ast.Name):
+            why = "handle_signal is not called once per reserved id"
+            continue
+        if coll is not None and ast.unparse(loop.iter) != coll:
+            why = f"the registration loop runs over {ast.unparse(loop.iter)}, not over the reserved ids {coll}"
+            continue
+        arg = call.args[1] if len(call.args) > 1 else None
+        idv = None
+        if isinstance(arg, ast.Call) and isinstance(arg.func, ast.Name) and arg.func.id == "dict":
+            idv = next((k.value for k in arg.keywords if k.arg == "id"), None)
+        elif isinstance(arg, ast.Dict):
+            idv = next((v for k, v in zip(arg.keys, arg.values) if isinstance(k, ast.Constant) and k.value == "id"), None)
+        if isinstance(idv, ast.Name) and idv.id == loop.target.id:
+            okr3 = True
+        else:
+            why = f"handle_signal is given id={ast.unparse(idv) if idv is not None else '?'} instead of the reserved id {loop.target.id}"
+    if okr3:
+        ok(pre + "/every-reserved-id-registered", "for id in reserved: handle_signal(name, dict(id=id, ...)) - each reserved id is validated and registered")
+    elif hs:
+        bad(pre + "/every-reserved-id-registered", why)
+    else:
+        und(pre + "/every-reserved-id-registered", why)
+    if res["open"]:
+        import subprocess
+        try:
+            p = subprocess.run(["/venv/bin/python", "-c", RESERVE_REPLAY, repo], capture_output=True, text=True, timeout=180)
+            lines = [l for l in p.stdout.splitlines() if l.startswith("C12-REPLAY-VIOLATION")]
+            if lines:
+                for info in res["open"].values():
+                    info["reproduced"] = True
+                    info["replay_how"] = "_RESERVED_ id: [7000, '7010-7012', '7020 to 7020', ' 7030 - 7033 '] next to a message using each reserved id in turn"
+                    info["verifier_output"] = info["text"]
+                    info["text"] += "\nreplayed on the real parser: " + " | ".join(lines)
+        except Exception:
+            pass
+    res["seconds"] = round(time.time() - t0, 2)
+    return res
